@@ -16,8 +16,12 @@ import (
 // ---- format clause: whole ciphertext bytes, judged by spec/algo/StreamFormat.tla ----------------
 
 func cfgEv(ev string, k keySpec) vt.Ev {
+	via := k.Via
+	if via == "" {
+		via = "subtle"
+	}
 	return vt.Ev{"ev": ev, "alg": k.Alg, "key": k.MainKey, "hkdf": k.Hkdf, "ks": k.KeySize, "tagAlg": k.TagAlg, "tag": k.Tag,
-		"c": k.C, "off": k.UserOff}
+		"c": k.C, "off": k.UserOff, "via": via}
 }
 
 // small legal configurations: the segment size is near the smallest legal one so that a few hundred
@@ -87,40 +91,41 @@ func genFormat(x *runner, n int, reqPath string) {
 		req = bufio.NewWriter(f)
 		defer req.Flush()
 	}
-	for i := 0; i < n; i++ {
-		k := smallKeySpec(r)
-		p, err := newSubtle(k)
-		if err != nil {
-			vt.Fatal("configuration refused: %+v: %v", k, err)
-		}
+	id := 0
+	one := func(k keySpec, nn int) {
+		id++
 		h := 1 + k.KeySize + 7
 		seg := k.C - k.Tag
 		f := seg - k.UserOff - h
-		top := f + 3*seg
-		nn := min(max(pick(r, 0, 1, f-1, f, f+1, f+seg-1, f+seg, f+seg+1, f+2*seg, top, r.Intn(top+1)), 0), top)
 		pt, aad := vt.Bytes(r, nn), vt.Bytes(r, pick(r, 0, 0, 1, 16, r.Intn(40)))
-		ct, err := encryptAll(p, r, aad, pt, f, seg)
+		p, err := newPrim(k)
+		var ct []byte
+		if err == nil {
+			ct, err = encryptAll(p, r, aad, pt, f, seg)
+		}
 		e := cfgEv("enc", k)
 		e["aad"], e["pt"], e["ct"], e["err"] = vt.Hex(aad), vt.Hex(pt), vt.Hex(ct), err != nil
-		x.tw.Emit(e)
-		if err != nil {
-			continue
+		if err != nil { // a legal configuration refused, or its encryption failed: recorded, the specification judges
+			e["what"] = err.Error()
 		}
-		// Tink decrypts its own ciphertext, untouched and manipulated; the decoder of the specification decides
-		sc := scenario{P: seg, T: k.Tag, Off: k.UserOff + h, Hdr: []int{1, k.KeySize, 7}}
-		for j := 0; j < 3; j++ {
-			st, a := ct, aad
-			if j > 0 {
-				m, _ := randManip(r, &sc, len(ct), false)
-				st = apply(&sc, m, ct, r)
-				if m.Kind == "aad" {
-					a = append(append([]byte{}, aad...), 1)
+		x.tw.Emit(e)
+		if err == nil {
+			// Tink decrypts its own ciphertext, untouched and manipulated; the decoder of the specification decides
+			sc := scenario{P: seg, T: k.Tag, Off: k.UserOff + h, Hdr: []int{1, k.KeySize, 7}}
+			for j := 0; j < 3; j++ {
+				st, a := ct, aad
+				if j > 0 {
+					m, _ := randManip(r, &sc, len(ct), false)
+					st = apply(&sc, m, ct, r)
+					if m.Kind == "aad" {
+						a = append(append([]byte{}, aad...), 1)
+					}
 				}
+				out, cls, pan := decryptAll(p, r, a, st, f, seg)
+				d := cfgEv("dec", k)
+				d["aad"], d["ct"], d["out"], d["err"], d["panic"], d["by"] = vt.Hex(a), vt.Hex(st), vt.Hex(out), cls, pan, "tink"
+				x.tw.Emit(d)
 			}
-			out, cls, pan := decryptAll(p, r, a, st, f, seg)
-			d := cfgEv("dec", k)
-			d["aad"], d["ct"], d["out"], d["err"], d["panic"], d["by"] = vt.Hex(a), vt.Hex(st), vt.Hex(out), cls, pan, "tink"
-			x.tw.Emit(d)
 		}
 		if req != nil { // the specification encrypts the same plaintext with a chosen salt and nonce prefix
 			salt, prefix := vt.Bytes(r, k.KeySize), vt.Bytes(r, 7)
@@ -131,12 +136,65 @@ func genFormat(x *runner, n int, reqPath string) {
 				salt, prefix = bytes.Repeat([]byte{0xff}, k.KeySize), bytes.Repeat([]byte{0xff}, 7)
 			}
 			q := cfgEv("req", k)
-			q["n"], q["salt"], q["prefix"], q["aad"], q["pt"] = i, vt.Hex(salt), vt.Hex(prefix), vt.Hex(aad), vt.Hex(pt)
+			q["n"], q["salt"], q["prefix"], q["aad"], q["pt"] = id, vt.Hex(salt), vt.Hex(prefix), vt.Hex(aad), vt.Hex(pt)
 			b, _ := json.Marshal(q)
 			req.Write(b)
 			req.WriteByte('\n')
 		}
 	}
+	// (a) KEY TYPES through streamingaead.New(handle): every (HKDF hash, HMAC hash) pair the key types accept, smallest
+	// and full-digest tags, both derived key sizes; the reference is keyed by the hashes the key DECLARES
+	hs := []string{"SHA1", "SHA256", "SHA512"}
+	cnt := 0
+	for _, hk := range hs {
+		for _, th := range append([]string{""}, hs...) {
+			tags := []int{16}
+			alg := "GCM"
+			if th != "" {
+				alg, tags = "CTR", []int{10, hashLens[th]}
+			}
+			for _, tag := range tags {
+				cnt++
+				k := keySpec{Alg: alg, Via: "keytype", KeySize: []int{16, 32}[cnt%2], Hkdf: hk, TagAlg: th, Tag: tag}
+				k.MainKey = vt.Hex(vt.Bytes(r, pick(r, k.KeySize, 32)))
+				k.C = 1 + k.KeySize + 7 + k.Tag + 1 + pick(r, 0, 1, 2, 7, 16)
+				seg := k.C - k.Tag
+				f := seg - (1 + k.KeySize + 7)
+				one(k, f+seg+1+r.Intn(seg))
+				one(k, pick(r, 0, 1, f, f+1))
+			}
+		}
+	}
+	// (b) seeded configurations of the subtle constructors (all five hashes, first-segment offsets); those a key type
+	// can express (SHA1/SHA256/SHA512, no offset, 16- or 32-byte main key) go through the key type every other time
+	keyable := func(h string) bool { return h == "" || h == "SHA1" || h == "SHA256" || h == "SHA512" }
+	for i := 0; i < n; i++ {
+		k := smallKeySpec(r)
+		if i%2 == 1 && k.UserOff == 0 && keyable(k.Hkdf) && keyable(k.TagAlg) && (len(k.MainKey) == 32 || len(k.MainKey) == 64) {
+			k.Via = "keytype"
+		}
+		seg := k.C - k.Tag
+		f := seg - k.UserOff - (1 + k.KeySize + 7)
+		top := f + 3*seg
+		one(k, min(max(pick(r, 0, 1, f-1, f, f+1, f+seg-1, f+seg, f+seg+1, f+2*seg, top, r.Intn(top+1)), 0), top))
+	}
+}
+
+// the primitive of a configuration: a subtle constructor, or the key type through streamingaead.New(handle)
+func newPrim(k keySpec) (tink.StreamingAEAD, error) {
+	if k.Via == "keytype" {
+		return handleOf([]keySpec{k}, 0)
+	}
+	return newSubtle(k)
+}
+
+func specOfEvent(q map[string]any) keySpec {
+	k := keySpec{Alg: q["alg"].(string), MainKey: q["key"].(string), Hkdf: q["hkdf"].(string), KeySize: int(q["ks"].(float64)),
+		TagAlg: q["tagAlg"].(string), Tag: int(q["tag"].(float64)), C: int(q["c"].(float64)), UserOff: int(q["off"].(float64))}
+	if v, ok := q["via"].(string); ok && v != "subtle" {
+		k.Via = v
+	}
+	return k
 }
 
 // feed the ciphertexts made by the specification (Plan_Stream) to Tink's reader
@@ -162,11 +220,13 @@ func decSealed(x *runner, reqPath, sealedPath string) {
 		if q == nil {
 			vt.Fatal("sealed ciphertext %d without request", s.N)
 		}
-		k := keySpec{Alg: q["alg"].(string), MainKey: q["key"].(string), Hkdf: q["hkdf"].(string), KeySize: int(q["ks"].(float64)),
-			TagAlg: q["tagAlg"].(string), Tag: int(q["tag"].(float64)), C: int(q["c"].(float64)), UserOff: int(q["off"].(float64))}
-		p, err := newSubtle(k)
-		if err != nil {
-			vt.Fatal("configuration refused: %v", err)
+		k := specOfEvent(q)
+		p, err := newPrim(k)
+		if err != nil { // refused: recorded as a reader that fails at once; the specification judges
+			d := cfgEv("dec", k)
+			d["aad"], d["ct"], d["out"], d["err"], d["panic"], d["by"], d["what"] = q["aad"], s.Ct, "", "ERR", false, "spec", err.Error()
+			x.tw.Emit(d)
+			continue
 		}
 		seg := k.C - k.Tag
 		f := seg - k.UserOff - (1 + k.KeySize + 7)
@@ -209,11 +269,18 @@ func redoFormat(x *runner, path string) {
 		if err := json.Unmarshal(line, &q); err != nil {
 			vt.Fatal("bad event: %v", err)
 		}
-		k := keySpec{Alg: q["alg"].(string), MainKey: q["key"].(string), Hkdf: q["hkdf"].(string), KeySize: int(q["ks"].(float64)),
-			TagAlg: q["tagAlg"].(string), Tag: int(q["tag"].(float64)), C: int(q["c"].(float64)), UserOff: int(q["off"].(float64))}
-		p, err := newSubtle(k)
-		if err != nil {
-			vt.Fatal("configuration refused: %v", err)
+		k := specOfEvent(q)
+		p, err := newPrim(k)
+		if err != nil { // refused: recorded; the specification judges
+			e := cfgEv(q["ev"].(string), k)
+			e["aad"], e["panic"], e["by"], e["what"] = q["aad"], false, "replay", err.Error()
+			if q["ev"] == "enc" {
+				e["pt"], e["ct"], e["err"] = q["pt"], "", true
+			} else {
+				e["ct"], e["out"], e["err"] = q["ct"], "", "ERR"
+			}
+			x.tw.Emit(e)
+			continue
 		}
 		seg := k.C - k.Tag
 		f := seg - k.UserOff - (1 + k.KeySize + 7)
